@@ -37,7 +37,6 @@ pub static SPEC: Spec = Spec {
         "refused:forgery:consistent-fake-tree-genuine-signature",
         "refused:forgery:consistent-fake-tree-no-upgrade",
         "accepted_legit",
-        "refused-as:Ok(false)",
         "refused:stale",
         "stale:Ok(true)",
         "honest_after_battery_ok",
